@@ -70,13 +70,33 @@ inductive FrameKind
   | create (address : Nat)
   deriving Repr
 
-structure Frame where
+/-- how the frame machine opens, closes and undoes a subroutine: the code does it with the journal
+(`journalOps`: `checkpoint` / `checkpoint_commit` / `checkpoint_revert` and the undo entries); the specification
+`Spec/Evm.lean` does it with whole-state snapshots. `κ` is what a frame keeps to be able to revert. -/
+structure CpOps (κ : Type) where
+  checkpoint : World → World × κ
+  commit : World → World
+  revert : World → κ → R World
+  /-- `create_account_checkpoint(caller, address, address_has_storage, value, spec)` -/
+  createCheckpoint : World → Nat → Nat → Bool → Nat → Nat → R (World × Except Journal.CreateErr κ)
+
+/-- `JournaledState::{checkpoint, checkpoint_commit, checkpoint_revert, create_account_checkpoint}` -/
+def journalOps : CpOps Journal.Checkpoint where
+  checkpoint := World.checkpoint
+  commit := World.commit
+  revert := World.revert
+  createCheckpoint := fun w caller a hasStorage value spec => do
+    let (js, r) ← ofOpt "create_account_checkpoint"
+      (Journal.createAccountCheckpoint w.js caller a hasStorage value spec)
+    pure ({ w with js := js }, r)
+
+structure Frame (κ : Type) where
   kind : FrameKind
-  checkpoint : Journal.Checkpoint
+  checkpoint : κ
   interp : Interp.IState
 
-inductive FrameOrResult
-  | frame (f : Frame)
+inductive FrameOrResult (κ : Type)
+  | frame (f : Frame κ)
   | result (r : Interp.ChildResult)
 
 /-- the `return_result` closure: nothing executed, all gas still there -/
@@ -84,14 +104,14 @@ def earlyResult (r : Interp.IResult) (gasLimit : Nat) : Interp.ChildResult :=
   { result := r, output := [], gasRemaining := gasLimit, gasRefunded := 0 }
 
 /-- `EvmContext::make_call_frame`; `mem` is the shared memory the new frame would run on -/
-def makeCallFrame (cfg : Cfg) (w : World) (i : Interp.CallInputs) (mem : Memory.SharedMemory) :
-    R (FrameOrResult × World) := do
+def makeCallFrame {κ : Type} (C : CpOps κ) (cfg : Cfg) (w : World) (i : Interp.CallInputs)
+    (mem : Memory.SharedMemory) : R (FrameOrResult κ × World) := do
   -- Check depth
   if w.js.depth > CALL_STACK_LIMIT then return (.result (earlyResult .CallTooDeep i.gasLimit), w)
   -- Make account warm and loaded
   let (w, _) ← w.loadAccountDelegated i.bytecodeAddress
   -- Create subroutine checkpoint
-  let (w, cp) := w.checkpoint
+  let (w, cp) := C.checkpoint w
   -- Touch address / transfer
   let step : R (World × Option Interp.IResult) :=
     if i.valueTransfer then
@@ -108,7 +128,7 @@ def makeCallFrame (cfg : Cfg) (w : World) (i : Interp.CallInputs) (mem : Memory.
     else pure (w, none)
   let (w, failed) ← step
   if let some r := failed then
-    let w ← w.revert cp
+    let w ← C.revert w cp
     return (.result (earlyResult r i.gasLimit), w)
   -- precompiles (never for EXTDELEGATECALL, which the legacy interpreter cannot issue)
   if let some res ← runPrecompile w cfg.spec i.bytecodeAddress i.input i.gasLimit then
@@ -116,12 +136,12 @@ def makeCallFrame (cfg : Cfg) (w : World) (i : Interp.CallInputs) (mem : Memory.
     | .ok gasUsed out =>
       if gasUsed ≤ i.gasLimit then
         return (.result { result := .Return, output := out, gasRemaining := i.gasLimit - gasUsed, gasRefunded := 0 },
-                w.commit)
+                C.commit w)
       else
-        let w ← w.revert cp
+        let w ← C.revert w cp
         return (.result (earlyResult .PrecompileOOG i.gasLimit), w)
     | .err e =>
-      let w ← w.revert cp
+      let w ← C.revert w cp
       return (.result (earlyResult (if e = .OutOfGas then .PrecompileOOG else .PrecompileError) i.gasLimit), w)
     | .panic => throw (.panic "precompile")
   -- load account and bytecode
@@ -130,7 +150,7 @@ def makeCallFrame (cfg : Cfg) (w : World) (i : Interp.CallInputs) (mem : Memory.
   let h ← ofOpt "code not cached" acc.info.code
   let bytecode ← ofOpt "code_by_hash" (w.codeOf h)
   if bytecode.isEmpty then
-    return (.result (earlyResult .Stop i.gasLimit), w.commit)
+    return (.result (earlyResult .Stop i.gasLimit), C.commit w)
   -- EIP-7702: one hop to the delegate's code
   let (w, bytecode) ← (match delegateOf bytecode with
     | some d => do
@@ -145,9 +165,9 @@ def makeCallFrame (cfg : Cfg) (w : World) (i : Interp.CallInputs) (mem : Memory.
   pure (.frame { kind := .call i.retStart i.retEnd, checkpoint := cp, interp := interp }, w)
 
 /-- `EvmContext::make_create_frame` -/
-def makeCreateFrame (cfg : Cfg) (w : World) (i : Interp.CreateInputs) (mem : Memory.SharedMemory) :
-    R (FrameOrResult × World) := do
-  let early (r : Interp.IResult) (w : World) : R (FrameOrResult × World) :=
+def makeCreateFrame {κ : Type} (C : CpOps κ) (cfg : Cfg) (w : World) (i : Interp.CreateInputs)
+    (mem : Memory.SharedMemory) : R (FrameOrResult κ × World) := do
+  let early (r : Interp.IResult) (w : World) : R (FrameOrResult κ × World) :=
     pure (.result (earlyResult r i.gasLimit), w)
   -- Check depth
   if w.js.depth > CALL_STACK_LIMIT then return ← early .CallTooDeep w
@@ -170,9 +190,7 @@ def makeCreateFrame (cfg : Cfg) (w : World) (i : Interp.CreateInputs) (mem : Mem
   let (w, _) ← w.loadAccount created
   let hasStorage := w.hasStorage created
   -- create account, transfer funds and make the journal checkpoint
-  let (js, r) ← ofOpt "create_account_checkpoint"
-    (Journal.createAccountCheckpoint w.js i.caller created hasStorage i.value cfg.spec)
-  let w := { w with js := js }
+  let (w, r) ← C.createCheckpoint w i.caller created hasStorage i.value cfg.spec
   match r with
   | .error .collision => early .CreateCollision w
   | .error .overflowPayment => early .OverflowPayment w
@@ -186,40 +204,41 @@ def resultOf (r : Interp.IResult) (out : List Nat) (s : Interp.IState) : Interp.
   { result := r, output := out, gasRemaining := s.gas.remaining, gasRefunded := s.gas.refunded }
 
 /-- `call_return` -/
-def callReturn (w : World) (cp : Journal.Checkpoint) (r : Interp.ChildResult) : R (Interp.ChildResult × World) :=
-  if r.result.isOk then pure (r, w.commit)
+def callReturn {κ : Type} (C : CpOps κ) (w : World) (cp : κ) (r : Interp.ChildResult) :
+    R (Interp.ChildResult × World) :=
+  if r.result.isOk then pure (r, C.commit w)
   else do
-    let w ← w.revert cp
+    let w ← C.revert w cp
     pure (r, w)
 
 def CODEDEPOSIT : Nat := 200
 
 /-- `create_return::<SPEC>` followed by `CreateOutcome::new(result, Some(address))` -/
-def createReturn (cfg : Cfg) (w : World) (cp : Journal.Checkpoint) (address : Nat) (r : Interp.ChildResult) :
-    R (Interp.ChildResult × World) := do
+def createReturn {κ : Type} (C : CpOps κ) (cfg : Cfg) (w : World) (cp : κ) (address : Nat)
+    (r : Interp.ChildResult) : R (Interp.ChildResult × World) := do
   let r := { r with address := some address }
   -- if return is not ok revert and return
   if !r.result.isOk then
-    let w ← w.revert cp
+    let w ← C.revert w cp
     return (r, w)
   -- EIP-3541: Reject new contract code starting with the 0xEF byte
   if enabled cfg.spec GasCalc.SpecId.LONDON ∧ r.output.head? = some 0xEF then
-    let w ← w.revert cp
+    let w ← C.revert w cp
     return ({ r with result := .CreateContractStartingWithEF }, w)
   -- EIP-170: Contract code size limit
   if enabled cfg.spec GasCalc.SpecId.SPURIOUS_DRAGON ∧ r.output.length > cfg.maxCodeSize then
-    let w ← w.revert cp
+    let w ← C.revert w cp
     return ({ r with result := .CreateContractSizeLimit }, w)
   let gasForCode := U64ops.wmul r.output.length CODEDEPOSIT
   let (r, failed) :=
     if gasForCode ≤ r.gasRemaining then ({ r with gasRemaining := r.gasRemaining - gasForCode }, false)
     else (r, true)
   if failed ∧ enabled cfg.spec GasCalc.SpecId.HOMESTEAD then
-    let w ← w.revert cp
+    let w ← C.revert w cp
     return ({ r with result := .OutOfGas }, w)
   let r := if failed then { r with output := [] } else r
   -- if we have enough gas we can commit changes
-  let w := w.commit
+  let w := C.commit w
   -- set code
   let hash := if r.output.isEmpty then KECCAK_EMPTY else Keccak.keccak256w r.output
   let js ← ofOpt "set_code" (Journal.setCode w.js address hash)
